@@ -3,7 +3,7 @@ prop(
     quick=[("native", 16)],
     thorough=[("native", 16), ("asan", 8), ("valgrind", 8)],
     level="exploration",
-    min_evals={"quick": 600_000, "thorough": 5_000_000},
+    min_evals={"quick": 800_000, "thorough": 5_000_000},
     rule=(
         "certificate chains TA -> CA^k -> {CA, EE, router} (k in 0..3) built with the library's TbsCert under a pool of RSA keys, encoded, re-decoded and validated top-down; "
         "per certificate and family the resources are missing / inherit / a subset of the issuer's effective set (model) / an overclaim sticking out by one element, lying in a gap or straddling an issuer block; "
@@ -14,7 +14,17 @@ prop(
         "an address family (or the asnum choice) one, two or three times in any order, IPv6 before IPv4, empty lists, inherit next to blocks, an rdi member, block lists reversed / adjacent / overlapping / in range form, the whole extension present twice - with blocks inside the issuer or sticking out; "
         "such a certificate may be rejected, but if it is accepted the union of everything written is the claim: no-overclaim with anything outside must fail, the validated set must equal that union (cut to the issuer under trim) and stay inside the issuer; the canonical shape must be accepted with exactly the model's set. "
         "Every third valid link gets its AKI keyIdentifier / SKI rewritten with 0, 1, 10, 19, 21, 24, 32, 40 octets whose leading or trailing octets are the required value (primitive and constructed OCTET STRING in several segmentations), or the extension added a second time with another identifier: must be rejected on all routes (the right 20 octets in constructed form are only recorded). "
-        "A case signature is (leaf kind, depth, policy, per-family claim shape incl. overclaim kind, expected outcome), (tamper kind, certificate kind), (encoder shape: kind, policy, entry pattern, inside/outside, departures from builder output) or (key identifier, length, anchor, encoding, kind); evaluations count validations and resource comparisons."
+        "Key identifiers derived from the RIGHT key in another way than the profile prescribes (SHA-1 over the subjectPublicKey bits): the harness reads each key's SubjectPublicKeyInfo with its own DER reader and computes a dictionary "
+        "sources {key bits, whole SubjectPublicKeyInfo, its content, BIT STRING content with the unused-bits octet, BIT STRING TLV, RSA modulus (magnitude / INTEGER content / TLV), modulus and exponent; for P-256 router keys the point without prefix, the x coordinate, the compressed point} x "
+        "hashes {SHA-1, SHA-224, SHA-256, SHA-384, SHA-512, SHA-512/256, SHA3-256} x forms {whole hash, leftmost 160 bits (RFC 7093), rightmost 160 bits; for SHA-1 also RFC 5280 method 2 '0100'+60 bits as 8 octets and zero-padded to 20 on either side} "
+        "(197 entries per RSA key, 175 per router key; the prescribed derivation itself is excluded), plus the neighbours' identifiers (SKI := the issuer's SKI, AKI := the certificate's own SKI, AKI := the issuer's AKI). "
+        "Every shard builds a chain TA -> CA -> {CA, EE, router} of its own (6 chains per shard in the thorough native stage; eras from 1955 to 2060) and re-issues the trust anchor once per entry with that SKI and each of the three leaves once per entry with that SKI (dictionary of the subject key) "
+        "and once per entry with that AKI (dictionary of the issuer key), the extension replaced where it stands and the result signed with the right issuer key, so that nothing but the key identifier comparison can object; a control (the required value spliced the same way reproduces the issued certificate byte for byte, and it passes every entry point) goes first. "
+        "Each such certificate goes through every public route, strict and relaxed: validate_{ta,ca,ee,detached_ee,router}_at, inspect_X followed by verify_X_at (for a trust anchor both verify_ta_at and verify_ta_ref_at, for an EE certificate both inspect_ee and inspect_detached_ee), and validate_X_at after a serde round trip; "
+        "a second chain per shard whose windows lie around the wall clock does the same for the 20-octet entries over key bits / SubjectPublicKeyInfo through the entry points without _at (validate_X, inspect_X + verify_X, verify_ta_ref). Any acceptance is a violation; "
+        "its signature names the identifier (ski/aki), the derivation, the certificate kind, under which strictness and through which entry points it got through (all of them, or the list). "
+        "Every third valid link of the generated chains additionally gets one random dictionary entry as its SKI or AKI (any depth, era, policy). A trust anchor with an added AKI holding a derived value is only recorded (the statement does not mention it). "
+        "A case signature is (identifier, derivation, certificate kind, clock) for these, (leaf kind, depth, policy, per-family claim shape incl. overclaim kind, expected outcome), (tamper kind, certificate kind), (encoder shape: kind, policy, entry pattern, inside/outside, departures from builder output) or (key identifier, length, anchor, encoding, kind); evaluations count validations and resource comparisons."
     ),
     assumptions=[
         "RSA-2048 (and P-256 public keys for router certificates) only; default key-identifier names",
@@ -22,6 +32,9 @@ prop(
         "certificates are built with the library's own TbsCert encoder (C05 checks it); SKI tampers, rewritten resource / key identifier extensions and re-signing use the harness DER tools and aws-lc-rs directly",
         "for a resource extension in a shape RFC 3779 / RFC 6487 do not allow (repeated family, wrong order, empty list, non-canonical block list) rejection and acceptance are both fine; on acceptance every written block counts as claimed",
         "flipped inputs that no longer decode count as rejected",
+        "'the hash of its key' is read as RFC 6487 4.8.2 has it: the 160-bit SHA-1 hash of the subjectPublicKey bits; the harness computes it (and every alternative derivation) itself from the SubjectPublicKeyInfo octets with aws-lc-rs, never through PublicKey::key_identifier",
+        "the dictionary of alternative derivations is finite (listed in the rule): a validator that accepts an identifier computed in a way outside it is not observed by this part",
+        "the entry points without _at read the machine's clock: their chain is built around it; only rejection is demanded there, a control that fails at the wall clock is recorded and the sub-workload skipped",
     ],
     level_text=(
         "Runtime accept/reject and resource-set oracle evaluated from the parameters the harness chose (it knows which single input it made non-conforming) and an interval-set model of effective resources, "
@@ -29,6 +42,6 @@ prop(
         "Exploration is the right level: chains, resource sets and tamper positions are sampled from an unbounded space."
     ),
     level_note="Trusts aws-lc-rs for signing on the harness side, the interval model and the harness DER reader; sampled.",
-    technique="accept/reject + resource-set oracle over generated chains, single-point tampers and issuer-signed certificates whose extensions come from an independent DER encoder; ASan, valgrind",
+    technique="accept/reject + resource-set oracle over generated chains, single-point tampers and issuer-signed certificates whose extensions come from an independent DER encoder; a dictionary of key identifiers derived from the right key in other ways x every validate / inspect+verify entry point x strict and relaxed; ASan, valgrind",
     design_ref="DESIGN.md §4 C01",
 )
